@@ -426,6 +426,31 @@ Lemma actuation_off_zero (mask : Z) (h : R) (nout nv : nat) (noclamp : bool) (li
   (map (fun _ => 0) xs, repeat 0 nout, repeat 0 nv).
 Proof. reflexivity. Qed.
 
+(* the advanced activation of an enabled or disabled activation-limited actuator lies in actrange, for
+   EVERY dyntype (Euler branches, exact filter) and every act_dot *)
+Lemma advance_in_range (mask : Z) (h : R) (a : @Actuator R) (act adot : R) :
+  a_actnum a = 1%Z -> a_actlimited a = true -> fst (a_actrange a) <= snd (a_actrange a) ->
+  fst (a_actrange a) <= advance1 false mask h (a, act) adot <= snd (a_actrange a).
+Proof. intros Hn Hl Hr. unfold advance1. rewrite Hn. cbn [Z.eqb Pos.eqb]. apply nextActivation_range; assumption. Qed.
+
+(* a disabled actuator with an in-range activation is frozen (Euler-type dyntypes), and so is every
+   activation when actuation is switched off *)
+Lemma advance_frozen (mask : Z) (h : R) (a : @Actuator R) (act adot : R) :
+  a_actnum a = 1%Z ->
+  advance1 true mask h (a, act) adot = act /\
+  (actuatorDisabled mask (a_group a) = true ->
+   (a_actlimited a = false \/ fst (a_actrange a) <= act <= snd (a_actrange a)) ->
+   advance1 false mask h (a, act) adot = act).
+Proof.
+  intros Hn. unfold advance1. rewrite Hn. cbn [Z.eqb Pos.eqb]. split; [reflexivity|]. intros Hd Hr. rewrite Hd.
+  unfold nextActivation. destruct (a_dynprm a) as [[d0 d1] d2]. num_R.
+  destruct (a_dyntype a =? 3)%Z; cbv zeta.
+  - replace (act + 0 * fmax MINVAL d0 * (1 - exp (- h / fmax MINVAL d0))) with act by ring.
+    destruct Hr as [Hr|Hr]; [rewrite Hr; reflexivity|]. destruct (a_actlimited a); auto using clip_id.
+  - replace (act + 0 * h) with act by ring.
+    destruct Hr as [Hr|Hr]; [rewrite Hr; reflexivity|]. destruct (a_actlimited a); auto using clip_id.
+Qed.
+
 (* ------------------------------------------------------------------ the affine law *)
 Lemma affine_law (mask : Z) (a : @Actuator R) (h u act len vel : R) :
   actuatorDisabled mask (a_group a) = false -> a_gaintype a = 1%Z -> a_biastype a = 1%Z -> a_actnum a = 0%Z ->
